@@ -174,6 +174,21 @@ func barrierSize(w *WSpec, name string) int {
 // paths are relative to the simulated working directory.
 
 func (e *Env) simExec(name string, args []string) ([]byte, error, bool) {
+	if (name == "mv" || name == "cp") && len(args) == 2 {
+		// mv / cp of one file (mv across devices = copy + unlink): the destination is created and
+		// filled step by step, which the crash points of the FS seam see
+		d, err := vs.FSReadFile(args[0])
+		if err != nil {
+			return []byte(err.Error()), vs.RealExitError(1), true
+		}
+		if err := vs.FSWriteFile(args[1], d, 0644); err != nil {
+			return []byte(err.Error()), vs.RealExitError(1), true
+		}
+		if name == "mv" {
+			vs.FSRemove(args[0])
+		}
+		return nil, nil, true
+	}
 	if name != "bash" || len(args) != 2 || args[0] != "-c" {
 		return nil, nil, false
 	}
